@@ -15,6 +15,10 @@
               MessageTransformSubscriberDecorator-wrapped subscriber built by the application, shared by all handlers with that g
               P<ids>  AddPublisherDecorators(ids...)      S<ids>      AddSubscriberDecorators(ids...)
               G<item>+<item>…  AddPlugin: a RouterPlugin that, when Run executes it, registers item ∈ R<ids> | P<ids> | S<ids>
+              X                the application edits every slice it has passed so far in a `xs...` call (all registrations
+                               are made from caller-owned slices with spare capacity): overwrites every element with a
+                               foreign recorder (ids >= 9000), appends one on the spare capacity, hands the result to a
+                               second router – the model ignores it (the router's lists are value copies)
               C<gor>|<gor>…    overlapping calls from several goroutines, gor = `+`-joined H<h>:<ids> (each goroutine's
                                Handler.AddMiddleware calls in its order)
               RUN     Run (first) / RunHandlers (later), then one message through every started handler
@@ -80,6 +84,7 @@ def hmwOf (names : List (Nat × String)) (cs : List Char) : Option Op :=
 /-- one token; `names` = handler number ↦ name, filled by the A tokens -/
 def opOf (names : List (Nat × String)) (tok : String) : Option (DOp × List (Nat × String)) :=
   if tok == "RUN" then some (.seq .run, names) else
+  if tok == "X" then some (.seq .callerEdits, names) else
   match tok.toList with
   | 'R' :: rest => (idsOf rest).map fun ids => (.seq (.routerMw ids), names)
   | 'P' :: rest => (idsOf rest).map fun ids => (.seq (.pubDec ids), names)
